@@ -6,9 +6,16 @@
   window-edge search of C36, `pruneBatch` = the removal loop of `Worker::run`, `runIteration` = one
   loop iteration), for EVERY well-formed store (any `BlockRanges` tables), every chain whose header
   times increase with height, every pair of cutoffs (both window orders), every cache-refresh
-  pattern, every `Daser` oracle, and — `history_safe` — every history of loop iterations interleaved
-  with arbitrary changes of the store by the rest of the node, as long as the clock does not run
-  backwards.  The decidable checkers are those of `Lumina/Spec/C35.lean`, evaluated on the abstract
+  pattern, every `Daser` oracle, and — `history_safe_partial` — every history of loop iterations
+  interleaved with arbitrary changes of the store by the rest of the node, AS LONG AS THE CLOCK DOES NOT
+  RUN BACKWARDS.
+
+  PARTIAL.  The property as worded does not exclude a backward step of `Time::now()`.  The theorems
+  named `…_partial` need the cached window edges to be right for the cutoffs of the call (`CacheOK`),
+  which along a history is what non-decreasing cutoffs (`Admissible`) give.  Without it the property
+  is FALSE of the current code: `history_safe_counterexample` (known finding
+  `C35/backward-clock-stale-cached-edge`).  `FullStatement` below is the statement without the
+  restriction.  The decidable checkers are those of `Lumina/Spec/C35.lean`, evaluated on the abstract
   view `viewOf` (the tables as lists of heights).
 -/
 import Lumina.Proofs.PrunerBatch
@@ -33,7 +40,7 @@ theorem fresh_worker_cache_ok (T : Nat → Nat) (sc pc : Nat) : CacheOK T ({} : 
     property's checker: every height of the batch is stored, outside the pruning window, and
     either outside the sampling window and sampled-or-granted, or sampled and not bordering an
     unsynced gap; no height the `Daser` refused is in it.  The cached edges stay right. -/
-theorem batch_meets_spec (limit : Nat) (s : PStore) (w : Worker) (sc pc : Nat) (refresh : Bool)
+theorem batch_meets_spec_partial (limit : Nat) (s : PStore) (w : Worker) (sc pc : Nat) (refresh : Bool)
     (grant : Nat → Bool) (hs : StoreInv s) (hm : ChainMono s.time) (hc : CacheOK s.time w.cache sc pc) :
     ∃ batch w' msgs, getNextPrunableBatch limit s w sc pc refresh grant = .ok (batch, w', msgs) ∧
       CacheOK s.time w'.cache sc pc ∧
@@ -42,7 +49,7 @@ theorem batch_meets_spec (limit : Nat) (s : PStore) (w : Worker) (sc pc : Nat) (
   exact ⟨batch, w', tr, h1, h2, batchOK_of_safe h3⟩
 
 /-- the same in `Prop` form, for whatever the call returns -/
-theorem batch_safe (limit : Nat) (s : PStore) (w : Worker) (sc pc : Nat) (refresh : Bool)
+theorem batch_safe_partial (limit : Nat) (s : PStore) (w : Worker) (sc pc : Nat) (refresh : Bool)
     (grant : Nat → Bool) (hs : StoreInv s) (hm : ChainMono s.time) (hc : CacheOK s.time w.cache sc pc)
     (batch : Ranges) (w' : Worker) (msgs : List Msg)
     (hres : getNextPrunableBatch limit s w sc pc refresh grant = .ok (batch, w', msgs)) (h : Nat)
@@ -62,7 +69,7 @@ theorem batch_safe (limit : Nat) (s : PStore) (w : Worker) (sc pc : Nat) (refres
 
 /-- the pruner asks the `Daser` only about stored, unsampled heights, and the answers recorded in
     the trace are the `Daser`'s -/
-theorem daser_asked_only_about_unsampled (limit : Nat) (s : PStore) (w : Worker) (sc pc : Nat)
+theorem daser_asked_only_about_unsampled_partial (limit : Nat) (s : PStore) (w : Worker) (sc pc : Nat)
     (refresh : Bool) (grant : Nat → Bool) (hs : StoreInv s) (hm : ChainMono s.time)
     (hc : CacheOK s.time w.cache sc pc) (batch : Ranges) (w' : Worker) (msgs : List Msg)
     (hres : getNextPrunableBatch limit s w sc pc refresh grant = .ok (batch, w', msgs)) (h : Nat) (a : Bool)
@@ -79,7 +86,7 @@ theorem daser_asked_only_about_unsampled (limit : Nat) (s : PStore) (w : Worker)
     heights of the batch in ascending order, "`blockstore.remove` of every CID of the header's
     sampling metadata, then `remove_height`": the order checker passes, exactly the heights of the
     batch are removed, and the store afterwards is the store before minus the batch. -/
-theorem iteration_meets_spec (limit : Nat) (s : PStore) (w : Worker) (sc pc : Nat) (refresh : Bool)
+theorem iteration_meets_spec_partial (limit : Nat) (s : PStore) (w : Worker) (sc pc : Nat) (refresh : Bool)
     (grant : Nat → Bool) (hs : StoreInv s) (hm : ChainMono s.time) (hc : CacheOK s.time w.cache sc pc) :
     ∃ s' w' batch msgs effs, runIteration limit s w sc pc refresh grant = .ok (s', w', batch, msgs, effs) ∧
       batchOK (viewOf s sc pc) (answersOf msgs) (heights batch) = true ∧
@@ -104,7 +111,7 @@ theorem cids_removed_before_header (s : PStore) (batch : Ranges) (pre post : Lis
     over the same chain produced by the rest of the node; cutoffs never decrease), no iteration
     fails and every iteration's batch and effect trace pass the property's checkers w.r.t. the
     store it started from. -/
-theorem history_safe (limit : Nat) (T : Nat → Nat) (hT : ChainMono T) (s0 : PStore) (hs : StoreInv s0)
+theorem history_safe_partial (limit : Nat) (T : Nat → Nat) (hT : ChainMono T) (s0 : PStore) (hs : StoreInv s0)
     (ht : s0.time = T) (ops : List Op) (ha : Admissible T 0 0 ops) :
     ∃ fin outs, runOps limit { store := s0, worker := {}, sc := 0, pc := 0 } ops = some (fin, outs) ∧
       ∀ o ∈ outs,
@@ -118,6 +125,59 @@ theorem history_safe (limit : Nat) (T : Nat → Nat) (hT : ChainMono T) (s0 : PS
   refine ⟨batchOK_of_safe k1, ?_, ?_⟩
   · rw [k2, project_batchEffs]; exact orderOK_blocks _ _ _
   · rw [k2, project_batchEffs]; exact removedHeights_blocks _ _
+
+/-! ### the property without the monotone-clock restriction is false -/
+
+/-- histories as in `Admissible`, but with no condition on the cutoffs -/
+def AnyClock (T : Nat → Nat) : List Op → Prop
+  | [] => True
+  | .env s' :: ops => StoreInv s' ∧ s'.time = T ∧ AnyClock T ops
+  | .iter _ _ _ _ :: ops => AnyClock T ops
+
+/-- C35 at full strength: `history_safe_partial` for every history, whatever the clock does -/
+def FullStatement : Prop :=
+  ∀ (limit : Nat) (T : Nat → Nat), ChainMono T → ∀ (s0 : PStore), StoreInv s0 → s0.time = T →
+    ∀ ops : List Op, AnyClock T ops →
+    ∃ fin outs, runOps limit { store := s0, worker := {}, sc := 0, pc := 0 } ops = some (fin, outs) ∧
+      ∀ o ∈ outs, batchOK (viewOf o.before o.sc o.pc) (answersOf o.msgs) (heights o.batch) = true
+
+/-- ten headers with times 10·h, all stored, none sampled -/
+def cexStore : PStore := { stored := [(1, 10)], time := fun h => 10 * h }
+
+/-- first iteration with cutoffs 75 (the `Daser` refuses everything, nothing is removed, the cached
+    edges become 7), then the clock steps back: cutoffs 30, the `Daser` grants -/
+def cexOps : List Op := [.iter 75 75 true (fun _ => false), .iter 30 30 true (fun _ => true)]
+
+/-- the batch of the second iteration and the checker's verdict on it -/
+def cexSecond : Option (List Nat × Bool) :=
+  match runOps 512 { store := cexStore, worker := {}, sc := 0, pc := 0 } cexOps with
+  | some (_, [_, o2]) =>
+    some (heights o2.batch, batchOK (viewOf o2.before o2.sc o2.pc) (answersOf o2.msgs) (heights o2.batch))
+  | _ => none
+
+unseal findSlowGo in
+/-- COUNTEREXAMPLE (known finding `C35/backward-clock-stale-cached-edge`).  After a backward clock
+    step the pruner's batch is `1..7` although headers 4..7 (times 40..70 > 30) are inside both
+    windows: the cached edges (7, right for cutoff 75) are never lowered (`update_cached_data`
+    only raises them, and `find_height_after_window_fast` trusts the previous answer). -/
+theorem history_safe_counterexample : cexSecond = some ([1, 2, 3, 4, 5, 6, 7], false) := by rfl
+
+/-- hence the statement without the monotone-clock restriction does not hold of the model (and,
+    by the replay `corpus/C35/backward-clock.ops`, not of the real `Worker` either) -/
+theorem fullStatement_counterexample : ¬ FullStatement := by
+  intro h
+  obtain ⟨fin, outs, h1, h2⟩ := h 512 cexStore.time (fun a b _ hab => by show 10 * a < 10 * b; omega)
+    cexStore ⟨inv_of_invB (by decide), inv_of_invB (by decide), inv_of_invB (by decide)⟩ rfl cexOps
+    trivial
+  have hc := history_safe_counterexample
+  unfold cexSecond at hc
+  rw [h1] at hc
+  match outs, h2, hc with
+  | [_, o2], h2, hc =>
+    simp only [Option.some.injEq, Prod.mk.injEq] at hc
+    have := h2 o2 (by simp)
+    rw [this] at hc
+    exact absurd hc.2 (by decide)
 
 /-! ### non-vacuity -/
 
